@@ -32,7 +32,7 @@ Fixpoint enc_pos (c : ctx) (fp : list trait) (genc : list (N * res (list N)))
       if t_suppress tr then enc_pos c fp genc rest
       else
         let fb := field_bytes c (ftype_of c f (t_ftype tr)) f v in
-        if t_group tr && has_group_count v then
+        if t_group tr && has_group_count_c c f v then
           match map_find f genc with
           | None => Exc (EInvalidGroup f)          (* find_group(fnum) == 0 *)
           | Some ge => bind ge (fun gb => bind (enc_pos c fp genc rest) (fun rb => Ok (fb ++ gb ++ rb)))
